@@ -27,6 +27,31 @@ pub enum Event {
     BeforeCacheStore { key: u64, depth: u8, maximizing: bool, alpha: i16, beta: i16, score: i16 },
     /// About to bump the shared searched-position counter.
     BeforeCounterBump,
+    /// Lock-granular trace of the shared search state (`lock` names the RwLock).
+    LockWillAcquire { lock: &'static str, write: bool },
+    LockAcquired { lock: &'static str, write: bool },
+    LockReleased { lock: &'static str, write: bool },
+}
+
+/// Emits `LockReleased` when dropped. Declare it *before* the lock guard it reports on,
+/// so that it is dropped after the guard (locals drop in reverse declaration order).
+pub struct LockReleaseNote {
+    lock: &'static str,
+    write: bool,
+}
+
+pub fn lock_release_note(lock: &'static str, write: bool) -> LockReleaseNote {
+    emit(Event::LockWillAcquire { lock, write });
+    LockReleaseNote { lock, write }
+}
+
+impl Drop for LockReleaseNote {
+    fn drop(&mut self) {
+        emit(Event::LockReleased {
+            lock: self.lock,
+            write: self.write,
+        });
+    }
 }
 
 pub trait Observer: Send + Sync {
